@@ -107,6 +107,7 @@ FIXED_PROGRAMS = [
     'def f13 { splitters: uid if not a == 1 and b == 1 { return "p" weighted 1 } else if not a == 1 or b == 1 { return "q" weighted 1 } else { return "r" weighted 1 } }',
     'def f14 { splitters: uid if x in ((1, 2)) { return "nested" weighted 1 } else if y == (("a")) { return "nested2" weighted 1 } else if z in ((1, 2), 3) { return "mixed" weighted 1 } else { return "no" weighted 1 } }',
     'def f15 { salt: " v2 " splitters: uid return "A" weighted 1, "B" weighted 1, "C" weighted 1 }',
+    'def f16 { splitters: uid if x == 1 { return "a" weighted 0, "b" weighted 0 } else if x in (2, 3, 4, 5) { return "run" weighted 1 } else if x not in (7, 8, 9) { return "c" weighted 1, "d" weighted 0.0 } else { return "e" weighted 1 } }',
     'def f10 { salt: "\U0001F680x" splitters: uid return "A" weighted 1, "B" weighted 1 }',
 ]
 
